@@ -23,7 +23,8 @@ def _names(level, s, l, c):
 
 
 class Gram:
-    def __init__(self, builder, level, short_flags="", short_args="", env_names=(), note="", names=None, help_shorts="hV"):
+    def __init__(self, builder, level, short_flags="", short_args="", env_names=(), note="", names=None, help_shorts="hV", conv="u32"):
+        self.conv = conv  # "u32": values go through the validity predicate; "string": OsString values, identity
         self.builder = "vharness::grammars::" + builder
         self.name = builder
         self.level = level
@@ -262,6 +263,23 @@ add(Gram("hr", Level([Named("switch", "v", ["verbose"]), _hr_token]), short_flag
 C01_GRAMMARS.append("hr")
 
 add(Gram("k6", None, short_flags="rps", names=("rps", ["rect", "point", "sw"], []), note="nested adjacent groups `--rect --point X Y`, repeated, next to a switch"))
+_gh_run = Level([Named("switch", "d", ["dry-run"])])
+add(Gram("gh", Level([Named("switch", "v", ["verbose"]), Cmds([Cmd(["run"], _gh_run)])]), short_flags="vd",
+         note="a group_help section that starts with a flag and also holds a command"))
+C01_GRAMMARS.append("gh")
+
+add(Gram("f3", None, short_flags="v", names=("v", ["verbose"], []), conv="string",
+         note="choice between a counted flag (succeeds without consuming) and an OsString positional: both branches succeed"))
+add(Gram("x1", Level([
+    Named("switch", "a", ["alpha"]),
+    Named("arg", "d", ["delta"], arity="many"),
+    Named("arg", "f", ["fall"], arity="fallback", default=1),
+], make=lambda v: (v[0], v[1], v[2], 7)), short_flags="a", short_args="df",
+    note="g4's grammar built from boxed / collect / group_help / hide_usage / pure_with / header / footer / max_width (+ complete under the feature)"))
+C01_GRAMMARS.append("x1")
+add(Gram("x2", None, short_flags="v", names=("v", ["verbose"], []), conv="string", note="switch + any(..).many(): every other item is collected"))
+add(Gram("x4", None, short_flags="abs", names=("abs", ["alpha", "beta", "sw"], []), note="choice of two flags that ends in fail(..), next to a switch"))
+
 add(Gram("k5", None, short_flags="rs", short_args="w", names=("rsw", ["rect", "sw", "width"], []), note="switch, then optional adjacent group (flag + argument), then optional positional"))
 
 _hd_secret = Named("switch", "s", ["secret"])
